@@ -400,7 +400,11 @@ func runC13(e *Engine, r *Report) {
 	ruleCodecThresholds(e, r, 3, "raftpb", [][2]string{{"(*raftpb.Entry).Size", "(*raftpb.Entry).marshalTo"}, {"(*raftpb.Entry).SizeUpperLimit", "(*raftpb.Entry).marshalTo"}})
 	ruleVarintLadder(e, r, "raftpb.sovRaft")
 	rulePayloadDecodeTotal(e, r)
+	ruleDecodeOwnsBytes(e, r, 10, c13AliasAccept, "raftpb")
 }
+
+// decoders that alias their input on purpose, each confirmed by reading.
+var c13AliasAccept = map[string]string{}
 
 // rulePayloadDecodeTotal: the entry payload decoder refuses only what the
 // decompressor refuses. The encoder accepts every payload up to the block
